@@ -158,7 +158,8 @@ func VerifC41ValidUser() {
 		rt.Assert("user/no-nonce-refused", c.unauth())
 	case 4:
 		n := nonce()
-		nonce() // a second nonce replaces the first
+		n2 := nonce() // a second nonce replaces the first
+		rt.Assume(n2 != n) // environment: the random source does not repeat a nonce
 		auth(right(n))
 		rt.Assert("user/stale-nonce-refused", c.unauth())
 	}
